@@ -275,6 +275,9 @@ func (u *Universe) BuildAlphabet(winFrom, winUntil int64) {
 	add(u.MkSigned("rTI", "recover", u.R[0], cm(u.R[2]), cm(u.U[2]), nil, SignedOpts{Tamper: true, DeltaStatus: ref.DeltaInvalid}))
 	add(u.MkSigned("uSF", "update", u.U[0], "", cm(u.U[1]), nil, SignedOpts{SigningKey: u.X[0], DeltaStatus: ref.DeltaFails}))
 	add(u.MkSigned("dO", "deactivate", u.R[0], "", "", nil, SignedOpts{SignedSuffix: "EiOtherSuffixxxxxxxxxxxxxxxxxxxxxxxxxxxxxxxxxxx"}))
+	// recover / deactivate that declare anchorFrom only (window ends at anchorFrom + MaxOperationTimeDelta)
+	add(u.MkSigned("rWd", "recover", u.R[0], cm(u.R[1]), cm(u.U[1]), d1, SignedOpts{From: winFrom}))
+	add(u.MkSigned("dWd", "deactivate", u.R[0], "", "", nil, SignedOpts{From: winFrom}))
 	// genuine signatures by the key of the other commitment kind (update key on a recover/deactivate, recovery key on an update)
 	add(u.MkSigned("rU", "recover", u.U[0], cm(u.R[1]), cm(u.U[1]), d1, SignedOpts{}))
 	add(u.MkSigned("dU", "deactivate", u.U[0], "", "", nil, SignedOpts{}))
@@ -653,6 +656,10 @@ func (c *Chain) Forgeries(tag string) []*ref.Op {
 	add(c.U.MkSigned(lb("g-upd-tampered-next-consumed"), "update", c.CurU, "", c.AllU[0].Commitment(code), k2, SignedOpts{Tamper: true}))
 	add(c.U.MkSigned(lb("g-upd-wrongsigner-next-previous"), "update", c.CurU, "", c.AllU[(len(c.AllU)+len(c.AllU)-2)%len(c.AllU)].Commitment(code), k2, SignedOpts{SigningKey: x}))
 	add(c.U.MkSigned(lb("g-rec-tampered-next-consumed"), "recover", c.CurR, c.AllR[0].Commitment(code), c.AllU[0].Commitment(code), k2, SignedOpts{Tamper: true}))
+	// (h) requests that lack their delta (they still parse in batch mode): right key revealed, signature by another key
+	add(c.U.MkSigned(lb("h-upd-wrongsigner-no-delta"), "update", c.CurU, "", y.Commitment(code), k2, SignedOpts{SigningKey: x, OmitDelta: true}))
+	add(c.U.MkSigned(lb("h-rec-wrongsigner-no-delta"), "recover", c.CurR, y.Commitment(code), x.Commitment(code), k2, SignedOpts{SigningKey: x, OmitDelta: true}))
+	add(c.U.MkSigned(lb("h-upd-tampered-no-delta"), "update", c.CurU, "", y.Commitment(code), k2, SignedOpts{Tamper: true, OmitDelta: true}))
 	// update whose delta does not match the signed delta hash (tampered delta)
 	add(c.U.MkSigned(lb("c-upd-delta-swapped"), "update", c.CurU, "", y.Commitment(code), k2, SignedOpts{DeltaStatus: ref.DeltaMismatch}))
 	return out
